@@ -237,3 +237,36 @@ pub fn trace_logging(on: bool) {
 	});
 	log::set_max_level(if on { log::LevelFilter::Trace } else { log::LevelFilter::Off });
 }
+
+/// while alive the calling thread may run on one CPU only (so `available_parallelism()` reports 1)
+pub struct OneCpu {
+	old: Option<libc::cpu_set_t>,
+}
+impl OneCpu {
+	pub fn new() -> OneCpu {
+		// SAFETY: plain libc calls on local, zero-initialised sets
+		unsafe {
+			let mut old: libc::cpu_set_t = std::mem::zeroed();
+			if libc::sched_getaffinity(0, std::mem::size_of::<libc::cpu_set_t>(), &mut old) != 0 {
+				return OneCpu { old: None };
+			}
+			let first = (0..libc::CPU_SETSIZE as usize).find(|i| libc::CPU_ISSET(*i, &old));
+			let Some(first) = first else { return OneCpu { old: None } };
+			let mut one: libc::cpu_set_t = std::mem::zeroed();
+			libc::CPU_SET(first, &mut one);
+			if libc::sched_setaffinity(0, std::mem::size_of::<libc::cpu_set_t>(), &one) != 0 {
+				return OneCpu { old: None };
+			}
+			OneCpu { old: Some(old) }
+		}
+	}
+}
+impl Drop for OneCpu {
+	fn drop(&mut self) {
+		if let Some(old) = self.old.take() {
+			// SAFETY: as above
+			unsafe { libc::sched_setaffinity(0, std::mem::size_of::<libc::cpu_set_t>(), &old) };
+		}
+	}
+}
+
